@@ -125,6 +125,9 @@ class Histories(Suite):
                         res = ds.unified_dataset()
                     elif h["op"] == "sub_problem":
                         K = [x for x, p in zip(univ, h["pick"]) if p < 0.5]
+                        if not h["by_ids"] and h["pick"][-1] < 0.35 and univ:
+                            # elements of interest that the dataset does not contain (of the kind of its names): they must simply be ignored
+                            K = K + ([max(x for x in univ if isinstance(x, int)) + 17, -4242] if all(isinstance(x, int) for x in univ) else ["zz9", "y y"])
                         op = {"op": "sub_problem", "K": K}
                         if h["by_ids"]:
                             ids = {ds.mapping_elem_id[e] for e in ds.mapping_elem_id if e.value in K}
